@@ -68,4 +68,23 @@ Section Fill.
 
   Definition fill_body (o : mdopts) (text : str) : M str :=
     render_parsed o (PARSE (prepare_body text)).
+
+  (* fill_markdown: frontmatter handling (same decisions as Frontmatter.fill_markdown_fm) around the body *)
+  Definition fill_markdown (o : mdopts) (text : str) : M str :=
+    let '(fm, content) := split_frontmatter text in
+    match fm with
+    | [] => fill_body o text
+    | _ =>
+        if is_nil content && Nat.ltb (count_delims fm) 2 then
+          ret (if endswith fm [nl] then fm else fm ++ [nl])
+        else b <- fill_body o content ;; ret (fm ++ b)
+    end.
 End Fill.
+
+(* the text handed to the parser by fill_markdown (None when the parser is not reached) *)
+Definition parser_input (text : str) : option str :=
+  let '(fm, content) := split_frontmatter text in
+  match fm with
+  | [] => Some (prepare_body text)
+  | _ => if is_nil content && Nat.ltb (count_delims fm) 2 then None else Some (prepare_body content)
+  end.
